@@ -537,6 +537,17 @@ func c15GenManifest(t *rapid.T) c15Input {
 		entries := make([]c15Entry, n)
 		allValid := rapid.Bool().Draw(t, "allValid")
 		for i := range entries {
+			if allValid && rapid.IntRange(0, 9).Draw(t, "longValid") == 0 {
+				// a plain, rule-abiding path of a length around and beyond 4 096 and 65 536 bytes
+				ln := rapid.SampledFrom([]int{1000, 4091, 4092, 4095, 4096, 4097, 5000, 65535, 65536, 70000}).Draw(t, "longValidLen")
+				seg := rapid.SampledFrom([]string{"dir/", "a/", "team1/sub-dir/", "x_y/"}).Draw(t, "longValidSeg")
+				p := strings.Repeat(seg, ln/len(seg)+1)[:ln-4]
+				if strings.HasSuffix(p, "/") {
+					p = p[:len(p)-1] + "a"
+				}
+				entries[i].Raw = p + ".fga"
+				continue
+			}
 			if allValid {
 				entries[i].Raw = rapid.SampledFrom([]string{"core.fga", "team1/board.fga", "a%2Fb.fga", "dir\\x.fga", "a+b.fga", "%41.fga", "x%2Efga", "a/./b.fga",
 					"a%20b.fga", "%252e%252e%252fx.fga", "...fga", "é/ü.fga", "a%5Cb%5cc.fga", ".hidden/x.fga", "a..b/x.fga"}).Draw(t, "validV")
